@@ -339,7 +339,7 @@ def run_case(desc):
     v = V()
     with tmpdir("c12-") as scratch:
         keys = run_map_batch(v, desc, scratch) if desc["kind"] == "map" else run_call_batch(v, desc, scratch)
-    return v.result(keys=keys, sample={"desc": desc, "faults": v.counters.get("faults_injected", 0),
+    return v.result(evaluations=v.counters.get("faults_injected", 0), keys=keys, sample={"desc": desc, "faults": v.counters.get("faults_injected", 0),
                                        "example": keys[:3]} if desc["start"] % 120 == 0 else None)
 
 
